@@ -752,6 +752,10 @@ func (e *Exec) concretize(t *smt.Term, what string) int {
 }
 
 func (e *Exec) boundsPanic(cond *smt.Term, format string, args ...interface{}) {
+	if e.reason == "" {
+		e.reason = "bounds"
+		defer func() { e.reason = "" }()
+	}
 	// cond = out of range
 	if cond.IsFalse() {
 		return
@@ -967,6 +971,10 @@ func (e *Exec) typeAssert(fr *frame, x *ssa.TypeAssert) Value {
 // this path (a proved equality, so sound); keeps nested buffer reads from
 // compounding across loop iterations.
 func (e *Exec) canon(t *smt.Term) *smt.Term {
+	if e.reason == "" {
+		e.reason = "canon"
+		defer func() { e.reason = "" }()
+	}
 	if t.IsConst() || e.initMode || smt.Size(t) <= 8 {
 		return t
 	}
